@@ -40,7 +40,6 @@ ASSUMPTIONS = [
     "only queries the model answers with a value are compared (an exception is not a value)",
     "the documented limitations of export_model delimit the generated subset",
 ]
-SIGNATURES = {}
 
 FEAT = gen.Feat(inherit=True, items=True, item_refs=False, uncached=True, objrefs=True, shadow=True, export_safe=True,
                 max_top=2, max_child=2, max_cells=3, max_rank=4, depth=2, tick=False)
@@ -48,7 +47,7 @@ FEAT = gen.Feat(inherit=True, items=True, item_refs=False, uncached=True, objref
 
 def plan(tier):
     if tier == "quick":
-        return {"shards": 8, "examples": 25, "wall": 110}
+        return {"shards": 8, "examples": 60, "wall": 110}
     return {"shards": 16, "examples": 500, "wall": 2400}
 
 
@@ -205,3 +204,29 @@ def run_case(case):
         return out
     finally:
         shutil.rmtree(root, ignore_errors=True)
+
+
+# ----------------------------------------------------------------------------
+# known-finding signatures
+
+def sig_export_scope_assertion(case, failure):
+    """KF-C15-3: the exporter's scope/symbol-table alignment asserts; only when some formula has a conditional
+    expression with a nested scope in its condition (the lambda) and in a branch"""
+    if failure["oracle"] != "export-failed" or "AssertionError" not in failure["detail"]:
+        return False
+
+    def nested(e):
+        from ..expr import walk
+        return any(n[0] in ("lam", "sum", "lst") for n in walk(e))
+
+    from ..expr import walk
+    for op in case["ops"]:
+        if op[0] in ("new_cells", "set_cells_formula"):
+            c = op[2] if op[0] == "new_cells" else op[3]
+            for n in walk(c["expr"]):
+                if n[0] == "ifgt" and nested(n[1]) and (nested(n[3]) or nested(n[4])):
+                    return True
+    return False
+
+
+SIGNATURES = {"export_scope_assertion": sig_export_scope_assertion}
